@@ -17,6 +17,18 @@ CHECKS = {
  "C07": dict(cat="exploration", tech="property-based testing of stream invariants over arbitrary Unicode inputs and call histories (watchdog for non-termination)",
    text="Invariant over generated configurations (modes, lookaheads, nullable patterns), arbitrary scalar values and next/peek_n/set_mode histories: spans non-empty, in range, on boundaries, ordered; <= one token per char; None sticky; no panic; bounded number of next() calls.",
    note="a build error for a generated (supported) configuration is counted inconclusive here and judged by C15", ref="5 C07"),
+ "C06": dict(cat="exploration", tech="model-based (stateful) property testing: generated call histories interpreted in lock-step with a mode-tracking model",
+   text="Histories of next/peek_n/set_mode/current_mode/mode_name, Scanner::set_mode and fresh iterators over generated mode graphs; after every step current_mode() must equal the model's mode and every token must be a match of a pattern of the model's current mode.",
+   note="tokens are judged by membership in the current mode's candidate set only (choice among candidates is C01/C05)", ref="5 C06"),
+ "C09": dict(cat="exploration", tech="model-based property testing: call histories against line/column recomputed from the text",
+   text="Histories (next, set_offset to scanned offsets, exhaustion, position queries, peek/advance_to) on both the WithPositions adapter and a bare FindMatches; every start position exact, end positions and position(o) with the stated tolerance behind a line break.",
+   note="resets only to offsets <= furthest consumed offset (the property's 'already scanned')", ref="5 C09"),
+ "C10": dict(cat="exploration", tech="metamorphic property testing over call histories (suffix-scan twin driven in lock-step)",
+   text="After every set_offset/with_offset (any boundary, 0, len, beyond) the iterator must behave exactly like a twin iterator over the suffix string in the same mode under the same subsequent calls (spans shifted); after peek_n+advance_to the twin consumes with next() instead and both must continue identically.",
+   note="advance_to only with the end of a match of the immediately preceding peek_n; parser duty set_mode(target) applied when the skipped prefix contains the mode-switching token", ref="5 C10"),
+ "C11": dict(cat="exploration", tech="metamorphic property testing over call histories (scout iterator for agreement, peek-free twin for purity)",
+   text="peek_n results must equal what a scout iterator returns for the next calls of next() in the unchanged mode (stop at n / mode-switch token / end), with the prescribed classification and target mode; the same history without peeks on a twin must give identical tokens and modes.",
+   note="when exactly n tokens were found and the last one switches modes both Matches and MatchesReachedModeSwitch are accepted (statement's outcomes overlap)", ref="5 C11"),
 }
 
 NOT_YET = {}
